@@ -442,7 +442,14 @@ class Point(HyperbolicObject, projective.Point):
             towards `other`.
 
         """
-        diff = other.proj_data - self.proj_data
+        # the two points may be represented by vectors on opposite
+        # sheets of the hyperboloid (i.e. with positive Minkowski
+        # product), in which case their difference points the wrong way
+        products = utils.apply_bilinear(self.proj_data, other.proj_data,
+                                        self.minkowski)
+        signs = np.where(products > 0, -1, 1)
+
+        diff = other.proj_data * signs[..., np.newaxis] - self.proj_data
         return TangentVector(self, diff).normalized()
 
     def get_origin(dimension, shape=(), **kwargs):
